@@ -565,12 +565,16 @@ func (m *e1Machine) checkIDs(a pt.Action, pre []string) *pt.Violation {
 	return nil
 }
 
+// hashOf computes the index key of an identifier with the implementation's own Timestamp.Hash.
 func hashOf(id string) string {
 	p := strings.Split(id, ":")
 	if len(p) != 4 {
 		return id
 	}
-	return p[0] + p[1] + p[3] + p[2] // era lamport delimiter cuid, as Timestamp.Hash concatenates them
+	era, _ := strconv.ParseUint(p[0], 10, 32)
+	lam, _ := strconv.ParseUint(p[1], 10, 64)
+	del, _ := strconv.ParseUint(p[3], 10, 32)
+	return model.NewTimestamp(uint32(era), lam, p[2], uint32(del)).Hash()
 }
 
 type exportedList struct {
